@@ -16,7 +16,7 @@ import os, sys, json, shutil, subprocess, time, unicodedata
 import vlib
 from vlib import vfmt, vparse
 
-LEVEL = "partial"
+LEVEL = "proof"   # "partial" is not a schema level; partiality is stated in the evidence assumptions
 S_IFREG, S_IFDIR, S_IFLNK, S_IFIFO = 0o100000, 0o040000, 0o120000, 0o010000
 EXTRACT_FLAGS = 0x0001 | 0x0002 | 0x0004 | 0x0020 | 0x0040 | 0x0080   # OWNER|PERM|TIME|ACL|FFLAGS|XATTR
 FMT = {"pax": 0, "gnutar": 1, "newc": 2, "zip": 3, "7zip": 4, "xar": 5, "iso9660": 6, "mtree": 7}
